@@ -471,4 +471,32 @@ def step (st : St) : Op → St × Reply
 
 def run (st : St) (ops : List Op) : St := ops.foldl (fun s o => (step s o).1) st
 
+/-! ## generating functions with state
+
+In `step` the generating functions are immutable codes.  A `FunctionSignal` may also be built from a
+STATEFUL callable object (a template with `.amplitude` / `.table`, a `functools.partial` over a
+mutable list).  `copy()` and `__add__` pass the function list through `copy.deepcopy`: plain
+functions come back as the same object (they are immutable), callable objects are duplicated.  This
+small model carries exactly that: the state of a callable object lives in a heap cell
+`[amplitude, offset]`. -/
+
+inductive FnRef
+  | plain (code : Nat)
+  | object (code : Nat) (state : Nat)
+
+def fnRefEval (h : Heap) : FnRef → Rat → Rat
+  | .plain k, t => fnEval k t
+  | .object k c, t => (h.cell c).getD 0 1 * fnEval k t + (h.cell c).getD 1 0
+
+def FnRef.stateIds : FnRef → List Nat
+  | .plain _ => []
+  | .object _ c => [c]
+
+/-- `copy.deepcopy(self._functions)` -/
+def deepcopyFns (h : Heap) : List FnRef → Heap × List FnRef
+  | [] => (h, [])
+  | .plain k :: r => ((deepcopyFns h r).1, .plain k :: (deepcopyFns h r).2)
+  | .object k c :: r =>
+      ((deepcopyFns (h.allocs [h.cell c]) r).1, .object k h.next :: (deepcopyFns (h.allocs [h.cell c]) r).2)
+
 end Sig
